@@ -17,7 +17,7 @@ func init() {
 		decided: "the print statement's write skeleton (one space written exactly before every argument but the first — decided by the argument's index —, one newline after the last, zero arguments print $, arguments rendered at top level without quotes, evaluated without copying); every number is rendered by strconv.FormatFloat(x, 'f', -1, 64) applied to the payload itself and no float reaches a fmt verb; the container renderer's write sequence ([, ', ' before every element but the first, ], {\"k\": v} with sorted keys) with nested values rendered quoted, the path-based cycle guard on every descent returning <circular reference> before descending; output goes unbuffered to the caller's writer." +
 			" After a newline the statement-end test answers true at once, so a bare print stays bare whatever the next line starts with." +
 			" The print statement's writes are decided as events (Fprint, Fprintf(\"%s\"), Evaluator.print); the argument list is made per statement; copies keep array identity." +
-			" The boolean text follows the payload; a bodyless rule's action is its parser-made bare print.",
+			" The boolean text follows the payload; a bodyless rule's action is its parser-made bare print. In the print statement's parser the comma is looked for before the statement end.",
 		notDecided: "exactness of the identity test for arrays that share backing storage without being the same array (sharing without a cycle can be reported as circular after popfirst: observation in DESIGN.md), re-readability of strings that need escaping.",
 	})
 }
